@@ -407,8 +407,46 @@ def b_next(interp, g, default, has_default):
     return at(m)[1]()
 
 
+def _sum_generators(interp, e, gens, env):
+    """sum(elt for .. in .. if .. for .. in .. if ..): nested sums, each level a summand-shaped term (Sums.total)"""
+    from .interp import Env
+    ctx = interp.ctx
+    comp = gens[0]
+    it = interp.eval(comp.iter, env)
+    lo, hi, elem, items = iter_info(interp, it)
+    if items is not None:
+        tot = 0
+        for x in items:
+            cenv = Env(env.globs, env)
+            interp.assign(comp.target, x, cenv)
+            if all(ctx.branch(interp.truth_term(interp.eval(c, cenv)), "sum-if") for c in comp.ifs):
+                tot = tot + (_sum_generators(interp, e, gens[1:], cenv) if len(gens) > 1 else interp.eval(e.elt, cenv))
+        return tot
+    k = z3.Const(f"sumk!{ctx.uid()}", I)
+    ctx.solver.push()
+    ctx.solver.add(zbool(rng(lo, k, hi)))
+    try:
+        with Pure(ctx):
+            cenv = Env(env.globs, env)
+            interp.assign(comp.target, elem(k), cenv)
+            cond = True
+            for c in comp.ifs:
+                cond = And(cond, interp.truth_term(interp.eval(c, cenv)))
+            if cond is not True:
+                ctx.solver.add(zbool(cond))
+            v = _sum_generators(interp, e, gens[1:], cenv) if len(gens) > 1 else interp.eval(e.elt, cenv)
+    finally:
+        ctx.solver.pop()
+    if not is_int(v):
+        raise OutOfReach("sum of non-integers")
+    term = If(cond, v, 0) if cond is not True else v
+    return ctx.sums.total(lo, hi, k, zint(term))
+
+
 def b_sum(interp, g):
     ctx = interp.ctx
+    if isinstance(g, GenExp) and len(g.node.generators) > 1:
+        return _sum_generators(interp, g.node, g.node.generators, g.env)
     if isinstance(g, GenExp):
         lo, hi, items, at = gen_terms(interp, g)
         if items is not None:
@@ -641,3 +679,24 @@ class MixedElem:
 
     def __init__(self, c, x, y):
         self.c, self.x, self.y = c, x, y
+
+    @property
+    def maybe_none(self):
+        """`self is None` as a term (interp.identical)"""
+        if self.y is None and self.x is not None:
+            return Not(self.c)
+        if self.x is None and self.y is not None:
+            return self.c
+        return None
+
+
+def resolve_mixed(ctx, v):
+    """pick the alternative of a conditional object that the path condition entails (no fork); else leave it"""
+    while isinstance(v, MixedElem):
+        if ctx.entails(v.c):
+            v = v.x
+        elif ctx.entails(Not(v.c)):
+            v = v.y
+        else:
+            break
+    return v
